@@ -276,7 +276,7 @@ def replay_race(strat, b0, b1, b2, b3, pv, mi, ti, v, p1, n, p2, nd):
 _RS = [('s%d_%s_m%d_d%d' % (i, n or 'none', m, d), 'strat == %d and mi == %d and nd == %d' % (i, m, d)) for i, n in enumerate(L.STRATEGY_NAMES) for m in range(3) for d in (1, 2)]
 _RQ = [('s%d_%s_m%d' % (i, L.STRATEGY_NAMES[i] or 'none', m), 'strat == %d and mi == %d and nd == 1' % (i, m)) for i in (0, 3, 6) for m in (0, 2)]
 HARNESSES.append(
-  H('C02_race', quick=dict(timeout=280, shards=_RQ, extra_pre=['p2 == 0', 'p1 <= 18', 'n in (0, 3, 6, 9, 12)', 'b1 == False and b3 == False', 'b0 or b2', 'ti != 1']), thorough=dict(timeout=900, shards=_RS, extra_pre=['b1 == False and b3 == False', 'p2 in (0, 3)', 'ti != 1']),
+  H('C02_race', quick=dict(timeout=420, shards=_RQ, extra_pre=['p2 == 0', 'p1 <= 18', 'n in (0, 3, 6, 9, 12)', 'b1 == False and b3 == False', 'b0 or b2', 'ti != 1']), thorough=dict(timeout=900, shards=_RS, extra_pre=['b1 == False and b3 == False', 'p2 in (0, 3)', 'ti != 1']),
     covers=['interleaved'], replay='replay_race', twin_pre=['strat == 3 and mi == 0'],
     encodes=['carbon.cache:_MetricCache.store', 'carbon.cache:_MetricCache.drain_metric', 'carbon.cache:_MetricCache.pop',
              'carbon.cache:_MetricCache._check_available_space', 'carbon.cache:*Strategy.choose_item / store (statement-level coroutines)'],
